@@ -65,7 +65,7 @@ theorem valid_wire {p : Packet} (h : p.valid = true) : p.wireSize ≤ maxPacketS
     simp only [Packet.wireSize, h1, Packet.writeOk, and_true]; omega
   | control ack t c =>
     simp only [Packet.valid, Bool.and_eq_true, decide_eq_true_eq] at h
-    exact h
+    exact h.1
   | chunks ack t rr n cs =>
     simp only [Packet.valid, Bool.and_eq_true, decide_eq_true_eq] at h
     exact ⟨h.1.1.1.1, rfl⟩
@@ -89,25 +89,30 @@ theorem emit_flushed (t : Nat) {fl : List Flushed} (h : ∀ f ∈ fl, f.Valid cf
 
 /-- control packets whose response token is not `TOKEN_NONE` and whose close reason is short -/
 theorem control_valid (ack tok : Nat) (ctl : Control)
-    (h : ∀ r, ctl = .close r → r.length ≤ 127)
+    (h : ∀ r, ctl = .close r → r.length ≤ 127 ∧ r.all (· != 0) = true)
     (hc : ∀ rt, ctl = .connect rt → rt ≠ TOKEN_NONE) (ht : ∀ rt, ctl = .token rt → rt ≠ TOKEN_NONE) :
     (Packet.control ack tok ctl).valid = true := by
   have h1 : Tw.Gen.Conn.P7.HEADER_SIZE = 7 := rfl
   have h2 : Tw.Gen.Conn.P7.TOKEN_REQUEST_PACKET_SIZE = 519 := rfl
-  simp only [Packet.valid, Bool.and_eq_true, decide_eq_true_eq]
-  rw [maxPacketSize_eq]
+  have h3 : Tw.Gen.Conn.P7.CTRLMSG_CLOSE_REASON_LENGTH = 127 := rfl
   cases ctl with
-  | close r => have := h r rfl; simp [Packet.wireSize, Packet.writeOk, h1]; omega
-  | keepAlive => simp [Packet.wireSize, Packet.writeOk, h1]
-  | accept => simp [Packet.wireSize, Packet.writeOk, h1]
-  | connect rt => have := hc rt rfl; simp [Packet.wireSize, Packet.writeOk, h1, this]
+  | close r =>
+    obtain ⟨ha, hb⟩ := h r rfl
+    simp only [Packet.valid, Bool.and_eq_true, decide_eq_true_eq, maxPacketSize_eq, h3]
+    refine ⟨⟨?_, rfl⟩, ha, hb⟩
+    simp [Packet.wireSize, h1]; omega
+  | keepAlive => simp [Packet.valid, maxPacketSize_eq, Packet.wireSize, Packet.writeOk, h1]
+  | accept => simp [Packet.valid, maxPacketSize_eq, Packet.wireSize, Packet.writeOk, h1]
+  | connect rt => have := hc rt rfl; simp [Packet.valid, maxPacketSize_eq, Packet.wireSize, Packet.writeOk, h1, this]
   | token rt =>
     have := ht rt rfl
-    simp only [Packet.wireSize, Packet.writeOk, h1, h2, bne_iff_ne, ne_eq, this, not_false_eq_true, and_true]
+    have hb : (rt != TOKEN_NONE) = true := by simpa using this
+    simp only [Packet.valid, maxPacketSize_eq, Packet.wireSize, Packet.writeOk, h1, h2, hb, Bool.and_true,
+      decide_eq_true_eq]
     split <;> omega
 
 theorem sendControlWith_ok (st : State) (ctl : Control) (tok : Nat)
-    (h : ∀ r, ctl = .close r → r.length ≤ 127)
+    (h : ∀ r, ctl = .close r → r.length ≤ 127 ∧ r.all (· != 0) = true)
     (hc : ∀ rt, ctl = .connect rt → rt ≠ TOKEN_NONE) (ht : ∀ rt, ctl = .token rt → rt ≠ TOKEN_NONE) :
     ∃ p, sendControlWith st ctl tok = .ok [p] ∧ p.valid = true := by
   unfold sendControlWith
@@ -115,7 +120,7 @@ theorem sendControlWith_ok (st : State) (ctl : Control) (tok : Nat)
     control_valid _ tok ctl h hc ht⟩
 
 theorem sendControl_ok (st : State) (ctl : Control)
-    (h : ∀ r, ctl = .close r → r.length ≤ 127)
+    (h : ∀ r, ctl = .close r → r.length ≤ 127 ∧ r.all (· != 0) = true)
     (hc : ∀ rt, ctl = .connect rt → rt ≠ TOKEN_NONE) (ht : ∀ rt, ctl = .token rt → rt ≠ TOKEN_NONE) :
     ∃ p, sendControl st ctl = .ok [p] ∧ p.valid = true :=
   sendControlWith_ok st ctl _ h hc ht
@@ -193,7 +198,7 @@ theorem disconnect_good (env : Env) {c : Conn} (h : c.Inv) (r : Bytes) (hp : per
   obtain ⟨⟨hd, hnul⟩, hlen⟩ := hp
   have hlen' : r.length ≤ 127 := hlen
   obtain ⟨p, he, hv⟩ := sendControl_ok st (.close r)
-    (by intro r' hr; injection hr with hr; subst hr; exact hlen') (by simp) (by simp)
+    (by intro r' hr; injection hr with hr; subst hr; exact ⟨hlen', hnul⟩) (by simp) (by simp)
   have hany : r.any (· == 0) = false := by
     rw [List.any_eq_false]
     intro x hx
